@@ -824,13 +824,13 @@ func trimBatch(b mx.Batch) mx.Batch {
 
 func run(c *lib.Ctx) {
 	c.Rule("case = (generated history, store configuration): 5-60 batches of 1-300 writes over engineered key alphabets (ascending, descending, zig-zag, shared prefixes incl. keys that " +
-		"are prefixes of others, binary incl. empty key, hashes, mixed), 25% of batches extend a non-latest version, a third of the histories also remove keys through db.DelKVPair; " +
+		"are prefixes of others, binary incl. empty key, hashes, ticket keys with closed-ticket values, mixed), 25% of batches extend a non-latest version, a third of the histories also remove keys through db.DelKVPair; " +
 		"applied to the real mavl.Store on LevelDB under plain / prefix / prefix+prune / memtree+memval; every version is compared with a versioned-map model after each commit, at the end, " +
 		"after reopen and after reopen with fresh globals. non-trivial = the monitor measured >=1 read at a non-latest root whose model answer differs from the newest version AND >=1 AVL rotation")
 	c.Assume("goleveldb and the harness' map model are trusted", "Store.Get cannot distinguish an absent key from an empty value: it is compared as bytes, presence is compared through Tree.Get",
 		"structural invariants (size, AVL balance, split key, node hash, Tree.Get index) are monitored as part of the DESIGN's oracle and reported under shape struct:*",
 		"removal batches use db.DelKVPair (the store's Del is unsupported); they are an extra operation stream of the same model")
-	n := c.N(48, 1500)
+	n := c.N(48, 1000)
 	var idxs []int
 	for i := 0; i < n; i++ {
 		if c.Skip(i) {
